@@ -18,6 +18,7 @@ import ast
 import re
 from typing import Any, Dict, List, Optional, Set, Tuple
 
+from engine.srcmatch import U
 from engine.cfg import build_cfg
 from engine.fold import Folder, FoldError
 from engine.model import AnalysisError, Program, dotted, walk_no_nested
@@ -60,22 +61,22 @@ def run(ctx: Any, prog: Program) -> None:
                         out.append(d)
             if isinstance(n, ast.Call):
                 if dotted(n.func) == 'open' and len(n.args) >= 2 and isinstance(n.args[1], ast.Constant) and any(ch in str(n.args[1].value) for ch in 'wax+'):
-                    tgt = ast.unparse(n.args[0])
+                    tgt = U(n.args[0])
                     if any(k in tgt for k in ('self.path', 'arch_file', 'get_arch_filename', 'self.folder', 'self.vpk.folder')):
                         out.append(f'open(..., {n.args[1].value!r})')     # one of the archive's own files
                 if isinstance(n.func, ast.Attribute) and n.func.attr in ('pop', 'clear', 'update', 'setdefault', 'popitem') and (dotted(n.func.value) or '').startswith(('self._fileinfo', 'files', 'folders', 'ext_infos', 'dir_infos')):
-                    out.append(ast.unparse(n.func))
+                    out.append(U(n.func))
         for n in walk_no_nested(fn):
             if isinstance(n, ast.Delete):
                 for t in n.targets:
                     if isinstance(t, ast.Subscript) and (dotted(t.value) or '').startswith(('self._fileinfo', 'files', 'folders', 'ext_infos', 'dir_infos')):
-                        out.append('del ' + ast.unparse(t.value))
+                        out.append('del ' + U(t.value))
         # locals aliasing the file table (dir_infos[name] = ...)
         for n in walk_no_nested(fn):
             if isinstance(n, ast.Assign):
                 for t in n.targets:
                     if isinstance(t, ast.Subscript) and dotted(t.value) in ('dir_infos', 'ext_infos', 'files', 'folders'):
-                        out.append(ast.unparse(t))
+                        out.append(U(t))
         return out
     exempt = {'__init__': 'constructor', 'load_dirfile': 'opens/truncates the directory according to the open mode by design', '__attrs_post_init__': 'constructor'}
     for cname, methods in (('VPK', vm), ('FileInfo', fm)):
@@ -90,7 +91,7 @@ def run(ctx: Any, prog: Program) -> None:
             for nd in g.nodes:
                 if nd.stmt is None:
                     continue
-                src = ast.unparse(nd.stmt) if nd.kind in ('stmt', 'test') else ''
+                src = U(nd.stmt) if nd.kind in ('stmt', 'test') else ''
                 if nd.kind == 'stmt' and '_check_writable()' in src:
                     guard_nodes.add(nd.id)
                 if nd.kind == 'test' and 'writable' in src:
@@ -99,7 +100,7 @@ def run(ctx: Any, prog: Program) -> None:
             for nd in g.nodes:
                 if nd.stmt is None or nd.kind not in ('stmt', 'with', 'return'):
                     continue
-                s2 = ast.unparse(nd.stmt)
+                s2 = U(nd.stmt)
                 if any(m.split('(')[0] in s2 for m in muts):
                     mut_nodes.add(nd.id)
             # delegation: a method whose every mutation happens through another guarded method
@@ -110,7 +111,7 @@ def run(ctx: Any, prog: Program) -> None:
                 for gid in guard_nodes:
                     nd = g.nodes[gid]
                     if nd.kind == 'test':
-                        src = ast.unparse(nd.stmt).replace(' ', '')
+                        src = U(nd.stmt).replace(' ', '')
                         if src.startswith('not'):
                             par = vpk.parents.get(nd.stmt)
                             ok = ok and isinstance(par, ast.If) and any(isinstance(x, ast.Raise) for x in par.body)
@@ -120,8 +121,8 @@ def run(ctx: Any, prog: Program) -> None:
                 all_guarded = bool(callers)
                 for cn2, cf in callers:
                     g2 = build_cfg(cf, lambda s_: False)
-                    guards2 = {nd.id for nd in g2.nodes if nd.stmt is not None and ((nd.kind == 'stmt' and '_check_writable()' in ast.unparse(nd.stmt)) or (nd.kind == 'test' and 'writable' in ast.unparse(nd.stmt)))}
-                    calls2 = {nd.id for nd in g2.nodes if nd.stmt is not None and nd.kind in ('stmt', 'with', 'return') and f'self.{name}(' in ast.unparse(nd.stmt)}
+                    guards2 = {nd.id for nd in g2.nodes if nd.stmt is not None and ((nd.kind == 'stmt' and '_check_writable()' in U(nd.stmt)) or (nd.kind == 'test' and 'writable' in U(nd.stmt)))}
+                    calls2 = {nd.id for nd in g2.nodes if nd.stmt is not None and nd.kind in ('stmt', 'with', 'return') and f'self.{name}(' in U(nd.stmt)}
                     if not guards2 or g2.find_path(g2.entry, calls2, removed_nodes=guards2) is not None:
                         all_guarded = False
                 if all_guarded:
@@ -139,7 +140,7 @@ def run(ctx: Any, prog: Program) -> None:
     ctx.check('C13.Z2', hdr in rf and (hdr in wf), vpk, wd, f'directory header: reader formats {rf}, writer formats {wf}; both must use <III (signature, version, tree length)', func='VPK.write_dirfile', text='header format')
     ctx.check('C13.Z2', ent in rf and ent in wf, vpk, wd, f'directory entry: reader formats {rf}, writer formats {wf}; both must use the same 18-byte record', func='VPK.write_dirfile', text='entry format')
     # the tree length patched afterwards is one <I at offset calcsize('<II')
-    ok = expand('<I') in wf and any(isinstance(c, ast.Call) and dotted(c.func) == 'file.seek' and ast.unparse(c.args[0]) == "struct.calcsize('<II')" for c in walk_no_nested(wd))
+    ok = expand('<I') in wf and any(isinstance(c, ast.Call) and dotted(c.func) == 'file.seek' and U(c.args[0]) == "struct.calcsize('<II')" for c in walk_no_nested(wd))
     ctx.shape('C13.Z2', ok, vpk, wd, 'the tree length must be patched into the third header field (seek to calcsize("<II"), pack "<I")', func='VPK.write_dirfile', text='tree length patch')
     # entry linkage
     r_ent = next((a for a in ra if a.fmts and expand(a.fmts[0]) == ent), None)
@@ -192,8 +193,8 @@ def run(ctx: Any, prog: Program) -> None:
     term = [n for n in walk_no_nested(ld) if isinstance(n, ast.If) and _is_term_test(n.test) and any(isinstance(x, ast.Raise) for x in n.body)]
     ctx.shape('C13.Z2', len(term) == 1, vpk, term[0] if term else ld, 'the reader must reject an entry whose terminator is not 0xffff', func='VPK.load_dirfile', text='terminator checked')
     dai = fold.global_('DIR_ARCH_INDEX')
-    r_map = any(isinstance(n, ast.If) and ast.unparse(n.test) == 'arch_ind == DIR_ARCH_INDEX' and ast.unparse(n.body[0]) == 'arch_ind = None' for n in walk_no_nested(ld))
-    w_map = any(isinstance(n, ast.If) and ast.unparse(n.test) == 'info.arch_index is None' and ast.unparse(n.body[0]) == 'arch_ind = DIR_ARCH_INDEX' for n in walk_no_nested(wd))
+    r_map = any(isinstance(n, ast.If) and U(n.test) == 'arch_ind == DIR_ARCH_INDEX' and U(n.body[0]) == 'arch_ind = None' for n in walk_no_nested(ld))
+    w_map = any(isinstance(n, ast.If) and U(n.test) == 'info.arch_index is None' and U(n.body[0]) == 'arch_ind = DIR_ARCH_INDEX' for n in walk_no_nested(wd))
     ctx.shape('C13.Z2', r_map and w_map and isinstance(dai, int) and dai <= 0xffff, vpk, wd, 'None <-> DIR_ARCH_INDEX must be mapped in both directions and fit the 16-bit field', func='VPK.write_dirfile', text='dir archive index mapping')
     # nesting: three nested loops on both sides, one terminator per level
     def loop_depth(fn: ast.AST) -> int:
@@ -247,7 +248,7 @@ def run(ctx: Any, prog: Program) -> None:
                     for h in helpers_in(st):
                         rec(h.body, ctxk, depth + 1)
                 if isinstance(st, ast.If):
-                    t = ast.unparse(st.test).replace('self.', '')
+                    t = U(st.test).replace('self.', '')
                     if t in ('arch_index is None', 'arch_index is not None') and not st.orelse and st.body and isinstance(st.body[-1], (ast.Return, ast.Raise)) and ctxk == 'unguarded':
                         # guard clause: the rest of this statement list runs under the negated test
                         rec(st.body, 'none' if t == 'arch_index is None' else 'num', depth)
@@ -282,15 +283,15 @@ def run(ctx: Any, prog: Program) -> None:
                   'vpk.footer_data and a numbered archive is opened only when arch_index is not None - otherwise write() and read() disagree and write_dirfile() drops the data',
                   func=f'FileInfo.{name}', text=f'{name} placement')
     # offsets into footer_data are relative to its start: read slices footer_data[offset: offset+arch_len]
-    rsrc = ast.unparse(fm['read']) + ''.join(ast.unparse(fm[c.func.attr]) for c in ast.walk(fm['read']) if isinstance(c, ast.Call) and isinstance(c.func, ast.Attribute) and dotted(c.func.value) == 'self' and c.func.attr in fm)
+    rsrc = U(fm['read']) + ''.join(U(fm[c.func.attr]) for c in ast.walk(fm['read']) if isinstance(c, ast.Call) and isinstance(c.func, ast.Attribute) and dotted(c.func.value) == 'self' and c.func.attr in fm)
     ctx.shape('C13.Z3', 'self.vpk.footer_data[self.offset:self.offset + self.arch_len]' in rsrc, vpk, fm['read'], 'read() must slice footer_data[offset: offset+arch_len]', func='FileInfo.read', text='footer slice')
     wfn = fm['write']
-    none_if = [n for n in ast.walk(wfn) if isinstance(n, ast.If) and ast.unparse(n.test) in ('arch_index is None', 'self.arch_index is None')]
+    none_if = [n for n in ast.walk(wfn) if isinstance(n, ast.If) and U(n.test) in ('arch_index is None', 'self.arch_index is None')]
     if len(none_if) != 1:
         ctx.shape('C13.Z3', False, vpk, wfn, 'directory-tail branch of write() not found', func='FileInfo.write', text='footer offset')
     else:
         def touches_footer(st: ast.AST) -> bool:
-            return any(isinstance(x, (ast.Assign, ast.AugAssign)) and 'footer_data' in ast.unparse(x.targets[0] if isinstance(x, ast.Assign) else x.target) for x in ast.walk(st))
+            return any(isinstance(x, (ast.Assign, ast.AugAssign)) and 'footer_data' in U(x.targets[0] if isinstance(x, ast.Assign) else x.target) for x in ast.walk(st))
 
         def sets_offset_to_end(st: ast.AST) -> bool:
             return any(isinstance(x, ast.Assign) and dotted(x.targets[0]) == 'self.offset' and isinstance(x.value, ast.Call) and dotted(x.value.func) == 'len' for x in ast.walk(st))
@@ -325,7 +326,7 @@ def run(ctx: Any, prog: Program) -> None:
             for name, fn in methods.items():
                 if name in ('__init__', 'load_dirfile', 'write_dirfile'):
                     continue
-                m_ = mutates(fn, is_fi) + [ast.unparse(n)[:40] for n in walk_no_nested(fn) if isinstance(n, ast.Delete) and '_fileinfo' in ast.unparse(n)]
+                m_ = mutates(fn, is_fi) + [U(n)[:40] for n in walk_no_nested(fn) if isinstance(n, ast.Delete) and '_fileinfo' in U(n)]
                 if not m_:
                     continue
                 sets_flag = any(isinstance(n, ast.Assign) and isinstance(n.targets[0], ast.Attribute) and n.targets[0].attr == flag and isinstance(n.value, ast.Constant) and n.value.value is True for n in ast.walk(fn))
@@ -350,9 +351,9 @@ def run(ctx: Any, prog: Program) -> None:
     probe = ast.parse('def f(buf, infos):\n    pos = 0\n    for info in infos:\n        buf[pos:pos + info.n] = buf[info.off:info.off + info.n]\n        info.off = pos\n        pos += info.n\n')
     ctx.check('C13.Z10', len(inplace_moves(probe)) == 1, vpk, vpk.tree, 'self-check of the detector on a known in-place block move', func='<detector>', text='in-place move probe is recognised')
     for mv, lp in inplace_moves(vpk.tree):
-        its = ast.unparse(lp.iter) if isinstance(lp, ast.For) else ''
+        its = U(lp.iter) if isinstance(lp, ast.For) else ''
         ordered = isinstance(lp, ast.For) and isinstance(lp.iter, ast.Call) and dotted(lp.iter.func) == 'sorted' and 'offset' in its and not any(k.arg == 'reverse' for k in lp.iter.keywords)
-        ctx.check('C13.Z10', ordered, vpk, mv, f'`{ast.unparse(mv)[:80]}` moves a block inside the buffer it is read from' + (f' while iterating `{its[:50]}`' if its else '') + ': sliding blocks towards the start is only safe when they are '
+        ctx.check('C13.Z10', ordered, vpk, mv, f'`{U(mv)[:80]}` moves a block inside the buffer it is read from' + (f' while iterating `{its[:50]}`' if its else '') + ': sliding blocks towards the start is only safe when they are '
                   'visited in increasing offset order - in directory order a block moved early overwrites a live block that is visited later (the file then reads another file\'s bytes)', text='in-place block move in offset order')
     # ---- Z9 ------------------------------------------------------------------------------------------------
     # _fileinfo is ext -> folder -> name -> FileInfo and the archive root is the folder ''.  Dropping a level is right only when the
@@ -365,13 +366,13 @@ def run(ctx: Any, prog: Program) -> None:
             if isinstance(n, ast.Assign) and isinstance(n.value, ast.Subscript) and isinstance(n.targets[0], ast.Name):
                 par = dotted(n.value.value)
                 if par == 'self._fileinfo' or par in derived:
-                    derived[n.targets[0].id] = (par or '', ast.unparse(n.value.slice))
+                    derived[n.targets[0].id] = (par or '', U(n.value.slice))
         for n in walk_no_nested(fn):
             cont = key = None
             if isinstance(n, ast.Call) and isinstance(n.func, ast.Attribute) and n.func.attr == 'pop' and n.args:
-                cont, key = dotted(n.func.value), ast.unparse(n.args[0])
+                cont, key = dotted(n.func.value), U(n.args[0])
             elif isinstance(n, ast.Delete) and isinstance(n.targets[0], ast.Subscript):
-                cont, key = dotted(n.targets[0].value), ast.unparse(n.targets[0].slice)
+                cont, key = dotted(n.targets[0].value), U(n.targets[0].slice)
             if cont is None or not (cont == 'self._fileinfo' or cont in derived):
                 continue
             child = [c for c, (p_, k_) in derived.items() if p_ == cont and k_ == key]
@@ -397,7 +398,7 @@ def run(ctx: Any, prog: Program) -> None:
                 early = [p_ for p_ in blk_[:blk_.index(stmt_)] if isinstance(p_, ast.If) and p_.body and isinstance(p_.body[-1], (ast.Return, ast.Raise, ast.Continue))
                          and any(isinstance(x, ast.Name) and x.id == child[0] for x in ast.walk(p_.test))] if stmt_ in blk_ else []
                 if early:
-                    et = ast.unparse(early[-1].test)
+                    et = U(early[-1].test)
                     if et in (child[0], f'len({child[0]}) > 0', f'len({child[0]}) != 0', f'{child[0]} != {{}}'):
                         ctx.check('C13.Z9', True, vpk, n, 'early return while the container still has entries', func=f'VPK.{name}', text=f'{name}: drop of {cont}[{key}] guarded by emptiness of {child[0]}')
                         continue
@@ -409,7 +410,7 @@ def run(ctx: Any, prog: Program) -> None:
                     continue
                 ctx.check('C13.Z9', False, vpk, n, f'VPK.{name} drops `{cont}[{key}]` without testing that `{child[0]}` is empty', func=f'VPK.{name}', text=f'{name}: drop of {cont}[{key}] guarded by emptiness of {child[0]}')
                 continue
-            gs = ast.unparse(guard)
+            gs = U(guard)
             empties = (f'not {child[0]}', f'len({child[0]}) == 0', f'{child[0]} == {{}}')
             if gs in empties:
                 ctx.check('C13.Z9', True, vpk, n, 'emptiness test', func=f'VPK.{name}', text=f'{name}: drop of {cont}[{key}] guarded by emptiness of {child[0]}')
@@ -424,7 +425,7 @@ def run(ctx: Any, prog: Program) -> None:
     ins_ = vpk.func('iter_nullstr')
     n_z8 = 0
     for lp in [n for n in ast.walk(ins_) if isinstance(n, (ast.While, ast.For))]:
-        fresh = {t.id: st for st in lp.body if isinstance(st, ast.Assign) and isinstance(st.value, (ast.Call, ast.Constant, ast.List)) and ast.unparse(st.value) in ('bytearray()', '[]', "b''", "''", 'list()')
+        fresh = {t.id: st for st in lp.body if isinstance(st, ast.Assign) and isinstance(st.value, (ast.Call, ast.Constant, ast.List)) and U(st.value) in ('bytearray()', '[]', "b''", "''", 'list()')
                  for t in st.targets if isinstance(t, ast.Name)}
         for name, st in fresh.items():
             for br in ast.walk(lp):
@@ -436,7 +437,7 @@ def run(ctx: Any, prog: Program) -> None:
                             n_z8 += 1
                             ctx.check('C13.Z8', False, vpk, st, f'`{name}` is re-created at the top of every loop iteration, so what the branch ending in `continue` (line {arm[-1].lineno}) has just added to it is thrown away: '
                                       'a string longer than one read block comes back as only its last part', func='iter_nullstr', text=f'{name} survives the continue')
-    acc = [n for n in ins_.body if isinstance(n, ast.Assign) and ast.unparse(n.value) in ('bytearray()', '[]')]
+    acc = [n for n in ins_.body if isinstance(n, ast.Assign) and U(n.value) in ('bytearray()', '[]')]
     ctx.check('C13.Z8', True, vpk, ins_, 'no accumulator is reset inside the loop before a continue' + (' (accumulator created before the loop)' if acc else ''), func='iter_nullstr', text='accumulator scan')
     # ---- Z4 ------------------------------------------------------------------------------------------------
     for name in ('__getitem__', '__contains__', '__delitem__', 'new_file'):
@@ -455,7 +456,7 @@ def run(ctx: Any, prog: Program) -> None:
     if splits:
         c = splits[0]
         last = c.func.attr == 'rpartition' or (c.func.attr == 'rsplit' and len(c.args) == 2 and isinstance(c.args[1], ast.Constant) and c.args[1].value == 1)
-        ctx.check('C13.Z4', last, vpk, c, f'`{ast.unparse(c)}` does not split at the last dot: "crate.dx90.vtx" decomposes differently from the explicit 3-tuple ("crate.dx90", "vtx"), so the forms address different entries',
+        ctx.check('C13.Z4', last, vpk, c, f'`{U(c)}` does not split at the last dot: "crate.dx90.vtx" decomposes differently from the explicit 3-tuple ("crate.dx90", "vtx"), so the forms address different entries',
                   func='_get_file_parts', text='extension split at the last dot')
     else:
         ctx.check('C13.Z4', True, vpk, splitext[0], 'os.path.splitext splits at the last dot', func='_get_file_parts', text='extension split at the last dot')
@@ -470,7 +471,7 @@ def run(ctx: Any, prog: Program) -> None:
         if isinstance(arg, ast.Name) and arg.id == w.args.args[1].arg and dotted(stores_crc[0].value) == dotted(crc_src[0].targets[0]):
             ctx.check('C13.Z5', True, vpk, crc_src[0], 'crc of the whole data', func='FileInfo.write', text='crc of full data')
         elif isinstance(arg, ast.Subscript):
-            ctx.check('C13.Z5', False, vpk, crc_src[0], f'the stored checksum covers only `{ast.unparse(arg)}`: verify() chains the preload and the archive part, i.e. the whole file, so every file longer than that slice fails verification '
+            ctx.check('C13.Z5', False, vpk, crc_src[0], f'the stored checksum covers only `{U(arg)}`: verify() chains the preload and the archive part, i.e. the whole file, so every file longer than that slice fails verification '
                       '(and a change beyond it is not noticed by the same-data shortcut)', func='FileInfo.write', text='crc of full data')
         else:
             ctx.shape('C13.Z5', False, vpk, crc_src[0], 'checksum argument not recognised', func='FileInfo.write', text='crc of full data')
@@ -488,16 +489,16 @@ def run(ctx: Any, prog: Program) -> None:
                 cur_ = vpk.parents.get(cur_)
             size = rd.args[0]
             if loop is None:
-                ctx.check('C13.Z5', dotted(size) == 'self.arch_len', vpk, rd, f'FileInfo.{mname} reads `{ast.unparse(size)}` bytes from the archive in one go; the entry is self.arch_len bytes long', func=f'FileInfo.{mname}',
+                ctx.check('C13.Z5', dotted(size) == 'self.arch_len', vpk, rd, f'FileInfo.{mname} reads `{U(size)}` bytes from the archive in one go; the entry is self.arch_len bytes long', func=f'FileInfo.{mname}',
                           text=f'{mname}: archive read covers arch_len')
                 continue
             # counters decremented inside the loop
             counters = {dotted(a.target) for a in ast.walk(loop) if isinstance(a, ast.AugAssign) and isinstance(a.op, ast.Sub)}
             uses_counter = any(isinstance(x, ast.Name) and x.id in counters for x in ast.walk(size))
-            ctx.check('C13.Z5', uses_counter, vpk, rd, f'FileInfo.{mname} reads `{ast.unparse(size)}` bytes per round of a loop that counts down {sorted(c for c in counters if c)}: the size does not depend on what is still missing, '
+            ctx.check('C13.Z5', uses_counter, vpk, rd, f'FileInfo.{mname} reads `{U(size)}` bytes per round of a loop that counts down {sorted(c for c in counters if c)}: the size does not depend on what is still missing, '
                       'so the last round reads past the end of the entry into the next file stored in the same archive (verify() then fails although read() is right)', func=f'FileInfo.{mname}', text=f'{mname}: archive read covers arch_len')
     v = fm['verify']
-    vsrc = ast.unparse(v)
+    vsrc = U(v)
     ok = 'chk = checksum(self.start_data)' in vsrc and vsrc.count('chk)') + vsrc.count(', chk') >= 2 and 'return chk == self.crc' in vsrc
     ctx.shape('C13.Z5', ok, vpk, v, 'verify() must chain checksum(start_data) into the checksum of the archive part and compare with crc', func='FileInfo.verify', text='verify chains')
     pre = [n for n in walk_no_nested(w) if isinstance(n, ast.Assign) and dotted(n.targets[0]) == 'self.start_data' and isinstance(n.value, ast.Subscript) and isinstance(n.value.slice, ast.Slice)]
@@ -505,7 +506,7 @@ def run(ctx: Any, prog: Program) -> None:
     if len(pre) != 1 or len(rest) != 1 or pre[0].value.slice.lower is not None:
         ctx.shape('C13.Z5', False, vpk, w, 'preload / archive split not recognised', func='FileInfo.write', text='split covers data')
     else:
-        ctx.check('C13.Z5', ast.unparse(pre[0].value.slice.upper) == ast.unparse(rest[0].value.slice.lower), vpk, rest[0], f'the preload is data[:{ast.unparse(pre[0].value.slice.upper)}] but the archive part is data[{ast.unparse(rest[0].value.slice.lower)}:]: '
+        ctx.check('C13.Z5', U(pre[0].value.slice.upper) == U(rest[0].value.slice.lower), vpk, rest[0], f'the preload is data[:{U(pre[0].value.slice.upper)}] but the archive part is data[{U(rest[0].value.slice.lower)}:]: '
                   'bytes between the two cut points are dropped or duplicated', func='FileInfo.write', text='split covers data')
     # ---- Z6 ------------------------------------------------------------------------------------------------
     if len(pre) == 1 and isinstance(pre[0].value.slice.upper, ast.Name):
